@@ -80,6 +80,34 @@ def check_t_matrix(ctx: Check, tree: Tree, cls_name: str, rel: bool) -> None:
     fn = tree.func(f"{MOD}::{cls_name}._create_matrices")
     nce = NCEval(tree)
     flags_list = [{"return_t_hat": False}, {"return_t_hat": True}] if "return_t_hat" in fn.params else [{}]
+    # closed forms for a concrete number of channels: `if n_channels == 2: ...`.  The generic path is
+    # decided on non-commutative terms with every such test False; each special size is decided on an
+    # explicit symbol matrix, entry by entry, against the defining identity T (1 - iK) = K.
+    special: dict[str, tuple[str, int]] = {}
+    for node in walk_function(fn.node):
+        if isinstance(node, ast.If):
+            t = node.test
+            if (isinstance(t, ast.Compare) and len(t.ops) == 1 and isinstance(t.ops[0], ast.Eq) and isinstance(t.left, ast.Name) and t.left.id in fn.params
+                    and isinstance(t.comparators[0], ast.Constant) and isinstance(t.comparators[0].value, int)):
+                special[unparse(t)] = (t.left.id, t.comparators[0].value)
+    nce.assume = {k: False for k in special}
+    for test, (pname, size) in sorted(special.items()):
+        from ..dense import DenseEval, Mat
+        from ..poly import I as IMAG
+        from ..poly import RF
+
+        if rel:
+            raise AnalysisError(f"{fn.qual}: closed form for `{test}` in the relativistic T-matrix (rho placeholders) is outside the dense evaluator")
+        for flags in flags_list:
+            res = DenseEval(tree, fn, {pname: size}, flags).run()
+            if not (isinstance(res, tuple) and len(res) == 2 and all(isinstance(x, Mat) for x in res)):
+                raise AnalysisError(f"{fn.qual}: branch `{test}` does not return (T, K) matrices")
+            t_m, k_m = res
+            lhs = t_m.matmul(Mat.eye(size) - k_m.map(lambda x: IMAG * x))
+            ok = lhs.equals(k_m) and k_m.equals(Mat.symbols("K", size, size))
+            ctx.verdict(ok, "R-TERM-NC", f"{fn.qual}::closed-form::{test}::{sorted(flags.items())}", tree.loc(fn.node),
+                        f"{cls_name}._create_matrices, branch `{test}`: the closed form satisfies T (1 - iK) = K entry by entry on a {size}x{size} symbol matrix",
+                        None if ok else {"T(1-iK) - K, entry [0,0]": repr(lhs.rows[0][0] - k_m.rows[0][0])[:300]})
     for flags in flags_list:
         res = nce.run(fn, dict(flags))
         if not res or not isinstance(res[0], NC):
@@ -184,6 +212,134 @@ def check_cached_matrices_not_mutated(ctx: Check, tree: Tree) -> None:
         ctx.ok("R-CACHE", MOD.replace(".", "/"), f"the {len(sources)} memoised matrix builders' results are only read / substituted (xreplace), never written")
 
 
+# --------------------------------------------------------------------------- R-POLESIGN
+
+
+def _bare_q2_at(te: TermEval, v, point_key, under_abs: bool, trail: tuple, hits: list, seen: set, depth: int = 0) -> None:
+    """Occurrences of BreakupMomentumSquared(<point>, ...) that are not inside an absolute value."""
+    from ..terms import ExtractionError
+
+    if not isinstance(v, RF) or depth > 8:
+        return
+    for a in v.atoms():
+        if not (isinstance(a, tuple) and a):
+            continue
+        if (a, under_abs) in seen:
+            continue
+        seen.add((a, under_abs))
+        if a[0] == "sqrt":
+            rad = D.radicands[a]
+            if not under_abs and not _sign_safe(te, rad):
+                hits.append((*trail, "sqrt of a radicand that is not sign-definite"))
+            _bare_q2_at(te, RF(rad), point_key, under_abs, (*trail, "sqrt"), hits, seen, depth + 1)
+            continue
+        if a[0] != "app" or a not in te.apps:
+            continue
+        info = te.apps[a]
+        name = info.cls.split("::")[-1]
+        if name == "Abs":
+            for y in info.args:
+                _bare_q2_at(te, y, point_key, True, (*trail, "Abs"), hits, seen, depth + 1)
+            continue
+        if name == "BreakupMomentumSquared" and info.args and isinstance(info.args[0], RF) and vkey(info.args[0]) == point_key:
+            if not under_abs:
+                hits.append((*trail, name))
+            continue
+        unfolded = None
+        if info.cls in te.classes and te.classes[info.cls].method("evaluate") is not None:
+            try:
+                unfolded = te.unfold_atom(a)
+            except ExtractionError:
+                unfolded = None
+        if isinstance(unfolded, RF):
+            _bare_q2_at(te, unfolded, point_key, under_abs, (*trail, name), hits, seen, depth + 1)
+        else:
+            for y in list(info.args) + list(info.kwargs.values()):
+                _bare_q2_at(te, y, point_key, under_abs, (*trail, name), hits, seen, depth + 1)
+
+
+def _sign_safe(te: TermEval, rad) -> bool:
+    """A radicand that cannot be negative for real arguments whatever their values: one monomial with a
+    positive coefficient whose factors are absolute values or even powers."""
+    terms = rad.t
+    if len(terms) != 1:
+        return False
+    ((mono, coeff),) = terms.items()
+    if coeff <= 0:
+        return False
+    for atom, exp in mono:
+        is_abs = isinstance(atom, tuple) and atom and atom[0] == "app" and atom in te.apps and te.apps[atom].cls.split("::")[-1] == "Abs"
+        if not is_abs and exp % 2:
+            return False
+    return True
+
+
+def check_pole_sign(ctx: Check, tree: Tree) -> None:
+    """R-POLESIGN: the residue functions of the relativistic K-matrix are gamma * sqrt(m_R * Gamma(s)),
+    with Gamma(s) = Gamma0 * (F(s)/F(m_R^2))^2 * rho(s)/rho(m_R^2).  Above all thresholds F(s) and
+    rho(s) are positive; K is real for EVERY real pole mass only if the two normalisation constants at
+    the pole are sign-insensitive, i.e. q^2(m_R^2) - which is negative for a pole between a channel's
+    pseudo-threshold and threshold - enters them through an absolute value only."""
+    dyn = "ampform.dynamics"
+    edw = te_cls = None
+    D.reset()
+    te = TermEval(tree)
+    edw = te.classes[f"{dyn}::EnergyDependentWidth"]
+    s, m0, g0, ma, mb, L, d = (sym(n) for n in ("s", "m0", "gamma0", "ma", "mb", "L", "d"))
+    point_key = vkey(m0**2)
+    # which phase-space factor classes does the relativistic K-matrix use when the caller chooses none?
+    defaults: dict[str, list[str]] = {}
+    for q in (f"{MOD}::RelativisticKMatrix.formulate", f"{MOD}::RelativisticKMatrix.parametrization"):
+        fn = tree.func(q)
+        a = fn.node.args
+        names = [x.arg for x in a.posonlyargs + a.args]
+        dflt = dict(zip(names[len(names) - len(a.defaults):], a.defaults))
+        dflt.update({k.arg: v for k, v in zip(a.kwonlyargs, a.kw_defaults) if v is not None})
+        if "phsp_factor" not in dflt:
+            raise AnalysisError(f"vanished anchor: {q} has no default phsp_factor")
+        target = tree.resolve(fn.module, dflt["phsp_factor"], fn)
+        if target not in tree.classes:
+            raise AnalysisError(f"{q}: default phsp_factor `{unparse(dflt['phsp_factor'])}` does not resolve to a class")
+        defaults.setdefault(target, []).append(q.split("::")[-1])
+    where = tree.loc(edw.method("evaluate").node)
+    n_norm = 0
+    for cls_q, users in sorted(defaults.items()):
+        v = te.unfold_atom(te.single_atom(te.construct(edw.qual, [s, m0, g0, ma, mb, L, d], {"phsp_factor": Opaque(("ref", cls_q))})))
+        if not isinstance(v, RF):
+            raise AnalysisError("EnergyDependentWidth.evaluate: no term")
+        # the normalisation constants: applications whose first argument is the pole position m0^2
+        for a in sorted(v.atoms(), key=repr):
+            if not (isinstance(a, tuple) and a and a[0] == "app" and a in te.apps):
+                continue
+            info = te.apps[a]
+            if not (info.args and isinstance(info.args[0], RF) and vkey(info.args[0]) == point_key):
+                continue
+            n_norm += 1
+            name = info.cls.split("::")[-1]
+            hits: list = []
+            _bare_q2_at(te, RF.atom(a), point_key, False, (), hits, set())
+            label = name if name == "FormFactor" else f"phsp_factor={name} (default of {', '.join(users)})"
+            ok = not hits
+            ctx.verdict(ok, "R-POLESIGN", f"{edw.qual}.evaluate::pole-normalisation::{name}", where,
+                        f"EnergyDependentWidth: the normalisation {label} at s = mass0^2 is sign-insensitive (q^2 at the pole only inside an absolute value), so Gamma(s) >= 0 and the residues gamma*sqrt(m*Gamma(s)) are real for every real pole mass",
+                        None if ok else {"bare q^2(mass0^2) reached through": [" > ".join(h) for h in hits[:3]],
+                                         "why": "for a pole between pseudo-threshold and threshold of the channel q^2(mass0^2) < 0: rho(mass0^2) is imaginary / B_L^2 changes sign, Gamma(s) is complex or negative, the residue of that channel is imaginary and K is not real"})
+    # the variant that exists to be real on the whole real axis ("Abs"): the only choice of the caller
+    # for which the S-wave K-matrix is unitary for every real pole mass
+    abs_q = "ampform.dynamics.phasespace::PhaseSpaceFactorAbs"
+    if abs_q not in te.classes:
+        raise AnalysisError("vanished anchor: PhaseSpaceFactorAbs")
+    a = te.single_atom(te.construct(abs_q, [m0**2, ma, mb], {}))
+    hits = []
+    _bare_q2_at(te, RF.atom(a), point_key, False, (), hits, set())
+    ok = not hits
+    ctx.verdict(ok, "R-POLESIGN", f"{abs_q}.evaluate::sign-insensitive", tree.loc(te.classes[abs_q].method("evaluate").node),
+                "PhaseSpaceFactorAbs(mass0^2, m1, m2) is real and non-negative for every real pole mass (every radicand is an absolute value or an even power)",
+                None if ok else {"reached through": [" > ".join(h) for h in hits[:3]]})
+    if n_norm < 2:
+        raise AnalysisError(f"EnergyDependentWidth.evaluate: only {n_norm} quantities evaluated at the pole position (FormFactor and phsp_factor expected)")
+
+
 def run(ctx: Check, tree: Tree) -> None:
     ctx.decided += [
         "K-matrix parametrisations are symmetric under i<->j, contain no imaginary unit, and sum over the poles (R-TERM)",
@@ -213,3 +369,4 @@ def run(ctx: Check, tree: Tree) -> None:
     from .c10 import check_forward
 
     ctx.section(check_forward, ctx, tree)
+    ctx.section(check_pole_sign, ctx, tree)
